@@ -161,6 +161,63 @@ Theorem C14_memory_order_writer_refuted :
 Proof. exact memory_order_writer_refuted. Qed.
 Print Assumptions C14_memory_order_writer_refuted.
 
+(** ---- argument / attribute types.  The constructor stores data_folded and pop_ids AS GIVEN, so the .folded attribute
+    of a Spectrum is any truthy / falsy Python object ([pyflag]: True / False, numpy.bool_, int, numpy integer,
+    float, 0-d array of one of these) and .pop_ids any sequence ([seqkind]).  [canon o] is the canonical form of the
+    object: sp_folded = bool(flag) ([truthy]), the items of the labels.  Writers, readers and the pickler may depend on
+    the truth value of the flag and on the items of the labels only. *)
+
+(** the file round trip of an object returns its canonical form, whatever the type of the flag and of the label
+    container (current and pre-1.3 format) *)
+Theorem C14_roundtrip_any_attribute_type :
+  forall (num : Type) (fmt : nat -> num -> string) (parse : string -> num) (round : nat -> num -> num),
+    (forall p x, parse (fmt p x) = round p x) -> (forall p x, tok_ok (fmt p x) = true) ->
+  forall p comments mask_corners foldmaskinfo (o : spectrum_obj num),
+    wf_spectrum (so_spec o) = true -> Forall (fun c => comment_ok c = true) comments ->
+    from_file parse mask_corners (to_file_obj fmt p comments foldmaskinfo o)
+    = Some (map strip comments, (if foldmaskinfo then after_file else after_old_file) round p mask_corners (canon o)).
+Proof. exact roundtrip_obj. Qed.
+Print Assumptions C14_roundtrip_any_attribute_type.
+
+(** the folding status read back is bool(flag) *)
+Theorem C14_folding_read_back_is_truth_value :
+  forall (num : Type) (fmt : nat -> num -> string) (parse : string -> num) (round : nat -> num -> num),
+    (forall p x, parse (fmt p x) = round p x) -> (forall p x, tok_ok (fmt p x) = true) ->
+  forall p comments mask_corners (o : spectrum_obj num),
+    wf_spectrum (so_spec o) = true -> Forall (fun c => comment_ok c = true) comments ->
+    option_map (fun r => sp_folded (snd r)) (from_file parse mask_corners (to_file_obj fmt p comments true o))
+    = Some (truthy (so_folded o)).
+Proof. exact roundtrip_obj_folded. Qed.
+
+(** two objects that differ only in the type of the flag (same truth value) and in the label container give the
+    same file *)
+Theorem C14_file_attribute_type_independent :
+  forall (num : Type) (fmt : nat -> num -> string) p comments foldmaskinfo (s : spectrum num) f f' k k',
+    truthy f = truthy f' ->
+    to_file_obj fmt p comments foldmaskinfo (mkObj s f k) = to_file_obj fmt p comments foldmaskinfo (mkObj s f' k').
+Proof. exact file_type_independent. Qed.
+
+(** pickling returns the object itself, flag object and label container included *)
+Theorem C14_pickle_roundtrip_any_attribute_type :
+  forall (num : Type) (o : spectrum_obj num),
+    length (sp_data (so_spec o)) = nprod (sp_shape (so_spec o)) ->
+    length (sp_mask (so_spec o)) = nprod (sp_shape (so_spec o)) ->
+    labels_len_ok (sp_shape (so_spec o)) (sp_labels (so_spec o)) = true ->
+    sp_folded (so_spec o) = truthy (so_folded o) ->
+    spectrum_unpickler_obj (spectrum_pickler_obj o) = Some o.
+Proof. exact pickle_roundtrip_obj. Qed.
+Print Assumptions C14_pickle_roundtrip_any_attribute_type.
+
+(** a writer that tests [self.folded is True] (identity with the singleton) instead of the truth value is not a
+    round trip: a folded spectrum whose flag is a numpy.bool_ comes back unfolded *)
+Theorem C14_identity_test_writer_refuted :
+  exists o : spectrum_obj tnum,
+    wf_spectrum (so_spec o) = true /\ sp_folded (so_spec o) = truthy (so_folded o) /\ truthy (so_folded o) = true /\
+    from_file tn_parse false (to_file_identity_test tn_fmt 17 [] true o)
+    <> Some ([], after_file tn_round 17 false (canon o)).
+Proof. exact identity_test_writer_refuted. Qed.
+Print Assumptions C14_identity_test_writer_refuted.
+
 (** documented limitation (not promised by the property): a label containing a double quote is not read back.
     [tnum] = naturals + inf/-inf/nan with exact printing: an instance satisfying the oracle hypotheses
     ([tn_parse_fmt], [tn_fmt_tok]). *)
@@ -204,4 +261,18 @@ Proof.
            (mkView [Fin 1; Fin 2; Fin 3; PInf; Fin 5; Fin 6] 0%Z [2; 3] [1%Z; 2%Z])
            (mkView [false] 0%Z [2; 3] [0%Z; 0%Z]) true (Some ["a b"; "c"]) None
            eq_refl eq_refl eq_refl eq_refl ltac:(repeat constructor)).
+Qed.
+
+(** non-vacuity of the attribute-type theorems: a folded 2x2 spectrum whose flag is a 0-d array holding the numpy
+    integer 1 and whose labels sit in a tuple reads back folded, with its labels *)
+Example C14_any_attribute_type_nonvacuous :
+  from_file tn_parse false
+    (to_file_obj tn_fmt 17 [] true
+       (mkObj (mkSpec [2; 2] [Fin 1; Fin 2; Fin 3; Fin 0] [true; false; false; true] true (Some ["a b"; "c"]) None)
+              (Arr0 (NpInt 1)) SeqTuple))
+  = Some ([], mkSpec [2; 2] [Fin 1; Fin 2; Fin 3; Fin 0] [true; false; false; true] true (Some ["a b"; "c"]) None).
+Proof.
+  exact (roundtrip_obj tnum tn_fmt tn_parse tn_round tn_parse_fmt tn_fmt_tok 17 [] false true
+           (mkObj (mkSpec [2; 2] [Fin 1; Fin 2; Fin 3; Fin 0] [true; false; false; true] true (Some ["a b"; "c"]) None)
+                  (Arr0 (NpInt 1)) SeqTuple) eq_refl ltac:(repeat constructor)).
 Qed.
